@@ -64,6 +64,10 @@ type DeferredCarWriter struct {
 // No options are supplied to carstorage.NewWritable by default, add
 // the car.WriteAsCarV1(true) option to write a CARv1 file.
 func NewDeferredCarWriterForPath(outPath string, roots []cid.Cid, opts ...carv2.Option) *DeferredCarWriter {
+	// The roots and options are not used before the first Put: keep copies, the
+	// caller's slices may have been put to other use by then.
+	roots = copyRoots(roots)
+	opts = append([]carv2.Option(nil), opts...)
 	return &DeferredCarWriter{roots: roots, outPath: outPath, opts: opts}
 }
 
@@ -76,7 +80,18 @@ func NewDeferredCarWriterForPath(outPath string, roots []cid.Cid, opts ...carv2.
 // header.
 func NewDeferredCarWriterForStream(outStream io.Writer, roots []cid.Cid, opts ...carv2.Option) *DeferredCarWriter {
 	opts = append([]carv2.Option{carv2.WriteAsCarV1(true)}, opts...)
+	// The roots are not used before the first Put: keep a copy, the caller's slice
+	// may have been put to other use by then.
+	roots = copyRoots(roots)
 	return &DeferredCarWriter{roots: roots, outStream: outStream, opts: opts}
+}
+
+// copyRoots keeps nil and empty apart: they are not written the same way.
+func copyRoots(roots []cid.Cid) []cid.Cid {
+	if roots == nil {
+		return nil
+	}
+	return append(make([]cid.Cid, 0, len(roots)), roots...)
 }
 
 // OnPut will call a callback when each Put() operation is started. The argument
